@@ -39,6 +39,22 @@ mod verif_c07_range_twins {
     use crate::structures::paging::page::{PageRange, PageRangeInclusive};
     use crate::structures::paging::{Page, PageSize, PhysFrame, Size1GiB, Size2MiB, Size4KiB};
 
+    /// Checks every listed clause on its own path: Kani's `assert!` also ASSUMES its condition afterwards, so in a
+    /// plain sequence a failing earlier clause would hide a failing later one (and with it the later obligation).
+    macro_rules! check_each {
+        ($( $c:expr => $m:literal ),+ $(,)?) => {{
+            let pick: u8 = kani::any();
+            let mut k: u8 = 0;
+            $(
+                if pick == k {
+                    assert!($c, $m);
+                }
+                k += 1;
+            )+
+            let _ = k;
+        }};
+    }
+
     const TWO52: u64 = 0x0010_0000_0000_0000;
 
     fn canonical(a: u64) -> bool {
@@ -97,10 +113,10 @@ mod verif_c07_range_twins {
         let (s, x) = any_page::<S>(size);
         let (e, y) = any_page::<S>(size);
         let r = PageRange { start: x, end: y }.is_empty();
-        assert!(
-            r == (s >= e) && r == (count_excl(s, e, size) == 0),
-            "C07.PageRange_is_empty.iff_no_items: empty exactly when the range stands for no page"
-        );
+        check_each! {
+            r == (s >= e) && r == (count_excl(s, e, size) == 0)
+                => "C07.PageRange_is_empty.iff_no_items: empty exactly when the range stands for no page",
+        }
     }
 
     //@ obligation C07 C07.PageRange_is_empty.iff_no_items
@@ -123,11 +139,12 @@ mod verif_c07_range_twins {
         kani::assume(same_half(s, e));
         let r = PageRange { start: x, end: y };
         let n = count_excl(s, e, size);
-        assert!(r.len() == n, "C07.PageRange_len.equals_item_count: len() == number of pages from start to end (exclusive)");
-        assert!(
-            r.size() as u128 == n as u128 * size as u128,
-            "C07.PageRange_size.len_times_page_size: size() == len() * SIZE"
-        );
+        check_each! {
+            r.len() == n
+                => "C07.PageRange_len.equals_item_count: len() == number of pages from start to end (exclusive)",
+            r.size() as u128 == n as u128 * size as u128
+                => "C07.PageRange_size.len_times_page_size: size() == len() * SIZE",
+        }
     }
 
     //@ obligation C07 C07.PageRange_len.equals_item_count
@@ -154,20 +171,20 @@ mod verif_c07_range_twins {
         let (s1, e1) = (r.start.start_address().as_u64(), r.end.start_address().as_u64());
         let n0 = count_excl(s0, e0, size);
         kani::cover!(n0 == 1 && e0 == 0x8000_0000_0000 - size, "c07 pagerange_next: last item before the last page of the lower half");
-        assert!(
-            wf_page_bounds(s1, e1, size),
-            "C07.PageRange_next.yields_first_and_shrinks_no_panic: the remaining range is well-formed"
-        );
+        check_each! {
+            wf_page_bounds(s1, e1, size)
+                => "C07.PageRange_next.yields_first_and_shrinks_no_panic: the remaining range is well-formed",
+        }
         if n0 == 0 {
-            assert!(
-                item.is_none() && s1 == s0 && e1 == e0,
-                "C07.PageRange_next.yields_first_and_shrinks_no_panic: an empty range yields None and is unchanged"
-            );
+            check_each! {
+                item.is_none() && s1 == s0 && e1 == e0
+                    => "C07.PageRange_next.yields_first_and_shrinks_no_panic: an empty range yields None and is unchanged",
+            }
         } else {
-            assert!(
-                step_ok(s0, n0, item, s1, count_excl(s1, e1, size), size),
-                "C07.PageRange_next.yields_first_and_shrinks_no_panic: yields the first page; the rest stands for the remaining pages"
-            );
+            check_each! {
+                step_ok(s0, n0, item, s1, count_excl(s1, e1, size), size)
+                    => "C07.PageRange_next.yields_first_and_shrinks_no_panic: yields the first page; the rest stands for the remaining pages",
+            }
         }
     }
 
@@ -196,19 +213,17 @@ mod verif_c07_range_twins {
         kani::cover!(true, "c07_twin_pagerange_as_4kib_page_range: reachable");
         let r = PageRange { start: x, end: y }.as_4kib_page_range();
         let (s1, e1) = (r.start.start_address().as_u64(), r.end.start_address().as_u64());
-        assert!(
-            s1 == s && e1 == e,
-            "C07.PageRange_as_4kib_page_range.same_bytes: the 4 KiB range has the same start and end addresses"
-        );
-        assert!(
-            wf_page_bounds(s1, e1, 4096),
-            "C07.PageRange_as_4kib_page_range.same_bytes: the 4 KiB range is well-formed"
-        );
+        check_each! {
+            s1 == s && e1 == e
+                => "C07.PageRange_as_4kib_page_range.same_bytes: the 4 KiB range has the same start and end addresses",
+            wf_page_bounds(s1, e1, 4096)
+                => "C07.PageRange_as_4kib_page_range.same_bytes: the 4 KiB range is well-formed",
+        }
         // same bytes: 512 four-KiB pages per 2 MiB page
-        assert!(
-            r.size() == (PageRange { start: x, end: y }).size() && r.len() == 512 * (PageRange { start: x, end: y }).len(),
-            "C07.PageRange_as_4kib_page_range.same_bytes: same size in bytes, 512 times the length"
-        );
+        check_each! {
+            r.size() == (PageRange { start: x, end: y }).size() && r.len() == 512 * (PageRange { start: x, end: y }).len()
+                => "C07.PageRange_as_4kib_page_range.same_bytes: same size in bytes, 512 times the length",
+        }
     }
 
     // ================================================================ PageRangeInclusive<S>
@@ -220,18 +235,14 @@ mod verif_c07_range_twins {
         let r = PageRangeInclusive { start: x, end: y };
         let n = count_incl(s, e, size);
         let emp = r.is_empty();
-        assert!(
-            emp == (s > e) && emp == (n == 0),
-            "C07.PageRangeInclusive_is_empty.iff_no_items: empty exactly when the range stands for no page"
-        );
-        assert!(
-            r.len() == n,
-            "C07.PageRangeInclusive_len.equals_item_count: len() == number of pages from start to end (inclusive)"
-        );
-        assert!(
-            r.size() as u128 == n as u128 * size as u128,
-            "C07.PageRangeInclusive_size.len_times_page_size: size() == len() * SIZE"
-        );
+        check_each! {
+            emp == (s > e) && emp == (n == 0)
+                => "C07.PageRangeInclusive_is_empty.iff_no_items: empty exactly when the range stands for no page",
+            r.len() == n
+                => "C07.PageRangeInclusive_len.equals_item_count: len() == number of pages from start to end (inclusive)",
+            r.size() as u128 == n as u128 * size as u128
+                => "C07.PageRangeInclusive_size.len_times_page_size: size() == len() * SIZE",
+        }
     }
 
     //@ obligation C07 C07.PageRangeInclusive_is_empty.iff_no_items
@@ -261,20 +272,20 @@ mod verif_c07_range_twins {
         let item = r.next().map(|p| p.start_address().as_u64());
         let (s1, e1) = (r.start.start_address().as_u64(), r.end.start_address().as_u64());
         let n0 = count_incl(s0, e0, size);
-        assert!(
-            wf_page_bounds(s1, e1, size),
-            "C07.PageRangeInclusive_next.yields_first_and_shrinks_no_panic: the remaining range is well-formed"
-        );
+        check_each! {
+            wf_page_bounds(s1, e1, size)
+                => "C07.PageRangeInclusive_next.yields_first_and_shrinks_no_panic: the remaining range is well-formed",
+        }
         if n0 == 0 {
-            assert!(
-                item.is_none() && s1 == s0 && e1 == e0,
-                "C07.PageRangeInclusive_next.yields_first_and_shrinks_no_panic: an empty range yields None and is unchanged"
-            );
+            check_each! {
+                item.is_none() && s1 == s0 && e1 == e0
+                    => "C07.PageRangeInclusive_next.yields_first_and_shrinks_no_panic: an empty range yields None and is unchanged",
+            }
         } else {
-            assert!(
-                step_ok(s0, n0, item, s1, count_incl(s1, e1, size), size),
-                "C07.PageRangeInclusive_next.yields_first_and_shrinks_no_panic: yields the first page; the rest stands for the remaining pages"
-            );
+            check_each! {
+                step_ok(s0, n0, item, s1, count_incl(s1, e1, size), size)
+                    => "C07.PageRangeInclusive_next.yields_first_and_shrinks_no_panic: yields the first page; the rest stands for the remaining pages",
+            }
         }
     }
 
@@ -300,18 +311,14 @@ mod verif_c07_range_twins {
         let r = PhysFrameRange { start: x, end: y };
         let n = count_excl(s, e, size);
         let emp = r.is_empty();
-        assert!(
-            emp == (s >= e) && emp == (n == 0),
-            "C07.PhysFrameRange_is_empty.iff_no_items: empty exactly when the range stands for no frame"
-        );
-        assert!(
-            r.len() == n,
-            "C07.PhysFrameRange_len.equals_item_count: len() == number of frames from start to end (exclusive)"
-        );
-        assert!(
-            r.size() as u128 == n as u128 * size as u128,
-            "C07.PhysFrameRange_size.len_times_frame_size: size() == len() * SIZE"
-        );
+        check_each! {
+            emp == (s >= e) && emp == (n == 0)
+                => "C07.PhysFrameRange_is_empty.iff_no_items: empty exactly when the range stands for no frame",
+            r.len() == n
+                => "C07.PhysFrameRange_len.equals_item_count: len() == number of frames from start to end (exclusive)",
+            r.size() as u128 == n as u128 * size as u128
+                => "C07.PhysFrameRange_size.len_times_frame_size: size() == len() * SIZE",
+        }
     }
 
     //@ obligation C07 C07.PhysFrameRange_is_empty.iff_no_items
@@ -338,20 +345,20 @@ mod verif_c07_range_twins {
         let (s1, e1) = (r.start.start_address().as_u64(), r.end.start_address().as_u64());
         let n0 = count_excl(s0, e0, size);
         kani::cover!(n0 == 1 && e0 == TWO52 - size, "c07 framerange_next: last item before the last frame");
-        assert!(
-            wf_frame_bounds(s1, e1, size),
-            "C07.PhysFrameRange_next.yields_first_and_shrinks_no_panic: the remaining range is well-formed"
-        );
+        check_each! {
+            wf_frame_bounds(s1, e1, size)
+                => "C07.PhysFrameRange_next.yields_first_and_shrinks_no_panic: the remaining range is well-formed",
+        }
         if n0 == 0 {
-            assert!(
-                item.is_none() && s1 == s0 && e1 == e0,
-                "C07.PhysFrameRange_next.yields_first_and_shrinks_no_panic: an empty range yields None and is unchanged"
-            );
+            check_each! {
+                item.is_none() && s1 == s0 && e1 == e0
+                    => "C07.PhysFrameRange_next.yields_first_and_shrinks_no_panic: an empty range yields None and is unchanged",
+            }
         } else {
-            assert!(
-                step_ok(s0, n0, item, s1, count_excl(s1, e1, size), size),
-                "C07.PhysFrameRange_next.yields_first_and_shrinks_no_panic: yields the first frame; the rest stands for the remaining frames"
-            );
+            check_each! {
+                step_ok(s0, n0, item, s1, count_excl(s1, e1, size), size)
+                    => "C07.PhysFrameRange_next.yields_first_and_shrinks_no_panic: yields the first frame; the rest stands for the remaining frames",
+            }
         }
     }
 
@@ -377,18 +384,14 @@ mod verif_c07_range_twins {
         let r = PhysFrameRangeInclusive { start: x, end: y };
         let n = count_incl(s, e, size);
         let emp = r.is_empty();
-        assert!(
-            emp == (s > e) && emp == (n == 0),
-            "C07.PhysFrameRangeInclusive_is_empty.iff_no_items: empty exactly when the range stands for no frame"
-        );
-        assert!(
-            r.len() == n,
-            "C07.PhysFrameRangeInclusive_len.equals_item_count: len() == number of frames from start to end (inclusive)"
-        );
-        assert!(
-            r.size() as u128 == n as u128 * size as u128,
-            "C07.PhysFrameRangeInclusive_size.len_times_frame_size: size() == len() * SIZE"
-        );
+        check_each! {
+            emp == (s > e) && emp == (n == 0)
+                => "C07.PhysFrameRangeInclusive_is_empty.iff_no_items: empty exactly when the range stands for no frame",
+            r.len() == n
+                => "C07.PhysFrameRangeInclusive_len.equals_item_count: len() == number of frames from start to end (inclusive)",
+            r.size() as u128 == n as u128 * size as u128
+                => "C07.PhysFrameRangeInclusive_size.len_times_frame_size: size() == len() * SIZE",
+        }
     }
 
     //@ obligation C07 C07.PhysFrameRangeInclusive_is_empty.iff_no_items
@@ -416,20 +419,20 @@ mod verif_c07_range_twins {
         let item = r.next().map(|f| f.start_address().as_u64());
         let (s1, e1) = (r.start.start_address().as_u64(), r.end.start_address().as_u64());
         let n0 = count_incl(s0, e0, size);
-        assert!(
-            wf_frame_bounds(s1, e1, size),
-            "C07.PhysFrameRangeInclusive_next.yields_first_and_shrinks_no_panic: the remaining range is well-formed"
-        );
+        check_each! {
+            wf_frame_bounds(s1, e1, size)
+                => "C07.PhysFrameRangeInclusive_next.yields_first_and_shrinks_no_panic: the remaining range is well-formed",
+        }
         if n0 == 0 {
-            assert!(
-                item.is_none() && s1 == s0 && e1 == e0,
-                "C07.PhysFrameRangeInclusive_next.yields_first_and_shrinks_no_panic: an empty range yields None and is unchanged"
-            );
+            check_each! {
+                item.is_none() && s1 == s0 && e1 == e0
+                    => "C07.PhysFrameRangeInclusive_next.yields_first_and_shrinks_no_panic: an empty range yields None and is unchanged",
+            }
         } else {
-            assert!(
-                step_ok(s0, n0, item, s1, count_incl(s1, e1, size), size),
-                "C07.PhysFrameRangeInclusive_next.yields_first_and_shrinks_no_panic: yields the first frame; the rest stands for the remaining frames"
-            );
+            check_each! {
+                step_ok(s0, n0, item, s1, count_incl(s1, e1, size), size)
+                    => "C07.PhysFrameRangeInclusive_next.yields_first_and_shrinks_no_panic: yields the first frame; the rest stands for the remaining frames",
+            }
         }
     }
 
